@@ -56,7 +56,7 @@ CLASSES = {
                "src": ("models.pddl_action", "Action")},
     "ActionCall": {"fields": {"name": "str", "parameters": ("ref", "list_str")}, "bases": [], "src": ("models.action_call", "ActionCall")},
     "Operator": {"fields": {"action": ("ref", "Action"), "domain": ("ref", "Domain"), "grounded_call_objects": ("ref", "list_str"),
-                            "grounded": "bool", "problem_objects": ("ref", "opaque"), "grounded_effects": ("ref", "opaque"),
+                            "grounded": "bool", "problem_objects": ("ref", "opaque"), "grounded_effects": ("ref", "set_GroundedEffect"),
                             "lifted_universal_effects": ("ref", "opaque"), "logger": ("ref", "opaque"),
                             "grounded_preconditions": ("ref", "GroundedPrecondition")}, "bases": [], "src": ("models.pddl_operator", "Operator")},
     "MultiAgentTrajectoryExporter": {"fields": {"domain": ("ref", "Domain"), "allow_invalid_actions": "bool"}, "bases": [],
@@ -72,6 +72,8 @@ CLASSES = {
                                         "domain": ("ref", "Domain"), "action": ("ref", "Action"), "logger": ("ref", "opaque"),
                                         "_parameter_map": ("ref", "dict_str_str")}, "bases": [],
                              "src": ("models.grounded_precondition", "GroundedPrecondition")},
+    "set_GroundedEffect": {"fields": {"items": ("seq", ("ref", "GroundedEffect"))}, "bases": [], "lib": True},
+    "GroundedEffect": {"fields": {"grounded_antecedents": ("ref", "opaque")}, "bases": [], "src": ("models.grounded_effect", "GroundedEffect")},
     "ENHSPParser": {"fields": {}, "bases": [], "src": ("exporters.enhsp_output_parser", "ENHSPParser")},
     "MetricFFParser": {"fields": {}, "bases": [], "src": ("exporters.ff_output_parser", "MetricFFParser")},
 }
